@@ -200,15 +200,20 @@ CLAIMED = {
         "joined path returns the path and un-flatten(flatten d) = d *with key order* for '>'-free, "
         "unique keys and non-empty nested dictionaries, hence NumPy; an empty nested dictionary is "
         "lost in .npz (negation proved with a witness); convert between any two formats preserves "
-        "the content. Tie to code: the six tree functions on random trees (depth <= 4, instances "
+        "the content. String level of the JSON key flags (Model/JsonKey, Props/JsonKey, List Char "
+        "models of `in`, rsplit(sep, 1), replace(sep, '')): unflag_flag - every key containing "
+        "neither marker (keys ending with underscores included: the defect repaired in 984e1da) and "
+        "every flag combination is recovered exactly; the hypothesis is shown to be needed. Tie to "
+        "code: the six tree functions on random trees (depth <= 4, instances "
         "of all 12 registered classes inside) vs the model; from_dict(to_dict(x)) = x per class; "
         "real files: save -> load in the three formats and convert for the six pairs vs the "
         "model's prediction, to_file / from_file, Simulation what = computed/results/all/plain "
-        "and absence of state leaking from to_file.",
+        "and absence of state leaking from to_file; the real key codec on ~1000 adversarial keys "
+        "against JKey.flagKey / unflagKey. Known findings: empty nested dictionary in .npz, shape of "
+        "an empty array with a leading zero axis in .json.",
    design='§4 C17',
    note=TB % 'c17' + "Modelled not verified: h5py / np.savez / json (identities on what they are "
-        "given; exercised on real files), the string rendering of the key flags "
-        "('__complex', '__array-<dtype>': parsed by the harness), leaf canonicalisation (scalar "
+        "given; exercised on real files), leaf canonicalisation (scalar "
         "kinds; arrays by dtype, shape, bytes). The root group of an .h5 file is listed by name: "
         "the top level is compared in sorted order (Python dict equality ignores order).",
    technique='Lean 4 structural induction over a mutual Tree/Forest model (ordered dictionaries); tree-function and real-file correspondence'),
